@@ -39,7 +39,8 @@ RULE = ('a case is one FITS header (projection x reference point x pixel scale(s
 ASSUMPTIONS = ['oracle: aegmon/refs/wcs_zenithal.py (geometric formulation of FITS paper II zenithal projections, no astropy), '
                'cross-checked at start-up against astropy.wcs to 1e-10 deg; aegmon/refs/sphere.py for lengths and angles',
                'ellipse round trip judged only for origin <= 3 deg off axis and axes <= 0.1 deg (first-order exactness)',
-               'rotation-free CDELT or CD headers without PV/SIP terms (others are counted as unsupported, not judged)',
+               'CDELT, CDELT+PC, CDELT+CROTA2 or CD headers; TAN-SIP with the forward polynomial applied by the oracle (corner distortion <= 0.8 px on >= 1000 px images at 1-2 arcsec/px, so that astropy\'s iterative inverse - terminated at 1e-4 px, contraction <= 3.4e-3 - is within 3.4e-7 px of exact); PV terms and look-up-table distortions are counted as unsupported, not judged',
+               'psf maps: the expected beam is only defined where it does not depend on the look-up convention (3 x 3 constant neighbourhood inside the map; >= 1.5 map pixels beyond an edge the nearest edge rows/columns, the map being clamped there)',
                'IEEE double arithmetic']
 MIN_REACH = {'wcs_helpers:WCSHelper.pix2sky': 1, 'wcs_helpers:WCSHelper.sky2pix': 1,
              'wcs_helpers:WCSHelper.sky2pix_vec': 1, 'wcs_helpers:WCSHelper.pix2sky_vec': 1,
@@ -54,7 +55,9 @@ MIN_COUNTERS = {'contract_pix2sky': 1000, 'contract_sky2pix': 1000, 'contract_sk
                 'rotated_header_cases': 10, 'psf_lookups_judged': 300, 'psfmap_constant_maps': 5, 'psfmap_blocks_maps': 5,
                 'psfmap_lookups_judged': 1000, 'psfmap_lookups_offdiagonal': 200,
                 'psfmap_lookups_transposition_sensitive': 100, 'psfmap_areas_judged': 200,
-                'sequence_helpers_judged': 100, 'sequence_rotated_helpers_judged': 40, 'sequence_lookups_judged': 500}
+                'sequence_helpers_judged': 100, 'sequence_rotated_helpers_judged': 40, 'sequence_lookups_judged': 500,
+                'sip_header_cases': 6, 'sip_header_cases_with_inverse_polynomials': 2, 'psfmap_small_cols_maps': 3,
+                'psfmap_small_rows_maps': 3, 'psfmap_beyond_edge_probes_judged': 150}
 
 TOL_PIX = 1e-6       # pixels, statement
 TOL_SKY = 1e-9       # degrees, statement
@@ -76,6 +79,45 @@ class ContractBroken(Exception):
 
 
 # ----------------------------------------------------------------------------- independent WCS of a helper
+class _SipWCS(wz.ZenithalWCS):
+    """ZenithalWCS preceded by the forward SIP polynomial (Shupe et al. 2005): with u, v the pixel offsets from CRPIX,
+    u' = u + sum A_pq u^p v^q, v' = v + sum B_pq u^p v^q are what the CD matrix acts on.  The inverse is found by
+    fixed-point iteration on the forward polynomial (contraction <= 1e-2 in the generated domain: 25 steps reach rounding
+    level); the header's AP/BP approximation of the inverse is not used."""
+
+    def __init__(self, d, a, b):
+        wz.ZenithalWCS.__init__(self, d)
+        self.sip_a = {k: float(v) for k, v in a.items() if float(v) != 0.0}
+        self.sip_b = {k: float(v) for k, v in b.items() if float(v) != 0.0}
+
+    @staticmethod
+    def _poly(c, u, v):
+        tot = np.zeros_like(u)
+        for (p_, q_), val in c.items():
+            tot = tot + val * u ** p_ * v ** q_
+        return tot
+
+    def pix2sky(self, p1, p2):
+        u = np.asarray(p1, dtype=float) - self.crpix[0]
+        v = np.asarray(p2, dtype=float) - self.crpix[1]
+        return wz.ZenithalWCS.pix2sky(self, u + self._poly(self.sip_a, u, v) + self.crpix[0],
+                                      v + self._poly(self.sip_b, u, v) + self.crpix[1])
+
+    def sky2pix(self, ra, dec):
+        f1, f2 = wz.ZenithalWCS.sky2pix(self, ra, dec)
+        f1 = np.asarray(f1, dtype=float) - self.crpix[0]
+        f2 = np.asarray(f2, dtype=float) - self.crpix[1]
+        u, v = f1, f2
+        for _ in range(25):
+            u, v = f1 - self._poly(self.sip_a, u, v), f2 - self._poly(self.sip_b, u, v)
+        return u + self.crpix[0], v + self.crpix[1]
+
+
+def _strip_sip(ctype):
+    ctype = str(ctype)
+    return ctype[:-4] if ctype.endswith('-SIP') else ctype
+
+
 def _zw(helper):
     """ZenithalWCS for this helper (cached on the instance); False when the header is outside the oracle's scope"""
     z = getattr(helper, '_aegmon_zwcs', None)
@@ -84,16 +126,21 @@ def _zw(helper):
     try:
         w = helper.wcs
         ww = w.wcs
-        if w.sip is not None or w.cpdis1 is not None or w.cpdis2 is not None or w.det2im1 is not None \
+        if w.cpdis1 is not None or w.cpdis2 is not None or w.det2im1 is not None \
                 or w.det2im2 is not None or len(ww.get_pv()) > 0:
             raise ValueError('distortions')
         m = np.asarray(w.pixel_scale_matrix, dtype=float)       # CDELT x PC or CD, parsed header values only
-        hdr = {'CTYPE1': ww.ctype[0], 'CTYPE2': ww.ctype[1], 'CRVAL1': ww.crval[0], 'CRVAL2': ww.crval[1],
+        hdr = {'CTYPE1': _strip_sip(ww.ctype[0]), 'CTYPE2': _strip_sip(ww.ctype[1]), 'CRVAL1': ww.crval[0], 'CRVAL2': ww.crval[1],
                'CRPIX1': ww.crpix[0], 'CRPIX2': ww.crpix[1],
                'CD1_1': m[0, 0], 'CD1_2': m[0, 1], 'CD2_1': m[1, 0], 'CD2_2': m[1, 1]}
         if np.isfinite(ww.lonpole) and ww.lonpole != 180.0:
             raise ValueError('lonpole')
-        z = wz.ZenithalWCS(hdr)             # general CD matrix: rotated grids are inside the oracle's formulation
+        if w.sip is not None:               # parsed coefficient matrices a[p][q], b[p][q]
+            sa, sb = np.asarray(w.sip.a, dtype=float), np.asarray(w.sip.b, dtype=float)
+            z = _SipWCS(hdr, {(i, j): sa[i, j] for i in range(sa.shape[0]) for j in range(sa.shape[1])},
+                        {(i, j): sb[i, j] for i in range(sb.shape[0]) for j in range(sb.shape[1])})
+        else:
+            z = wz.ZenithalWCS(hdr)         # general CD matrix: rotated grids are inside the oracle's formulation
     except Exception:
         z = False
     try:
@@ -118,16 +165,27 @@ def _cd_from_header(h):
 
 def _oracle_from_header(h):
     """ZenithalWCS of a header mapping, rotation (PC / CROTA2 / CD) included; raises outside the oracle's scope"""
+    import re
+    sip = str(h['CTYPE1']).endswith('-SIP') and str(h['CTYPE2']).endswith('-SIP')
+    sa, sb = {}, {}
     for k in h.keys():
-        if str(k).startswith(('PV', 'A_', 'B_', 'AP_', 'BP_', 'CROTA1', 'PC3', 'PC1_3', 'PC2_3')):
+        k = str(k)
+        if k.startswith(('PV', 'CROTA1', 'PC3', 'PC1_3', 'PC2_3', 'CPDIS', 'D2IM', 'DP', 'DQ')):
             raise ValueError('unsupported key %s' % k)
+        m = re.match(r'^([AB])_(\d)_(\d)$', k)
+        if m:
+            if not sip:
+                raise ValueError('SIP coefficients without -SIP in CTYPE')
+            (sa if m.group(1) == 'A' else sb)[(int(m.group(2)), int(m.group(3)))] = float(h[k])
     cd = _cd_from_header(h)
-    d = {'CTYPE1': h['CTYPE1'], 'CTYPE2': h['CTYPE2'], 'CRVAL1': h['CRVAL1'], 'CRVAL2': h['CRVAL2'],
+    d = {'CTYPE1': _strip_sip(h['CTYPE1']), 'CTYPE2': _strip_sip(h['CTYPE2']), 'CRVAL1': h['CRVAL1'], 'CRVAL2': h['CRVAL2'],
          'CRPIX1': h['CRPIX1'], 'CRPIX2': h['CRPIX2'], 'CD1_1': cd[0, 0], 'CD1_2': cd[0, 1], 'CD2_1': cd[1, 0],
          'CD2_2': cd[1, 1]}
     for k in ('LONPOLE', 'LATPOLE'):
         if k in h:
             d[k] = h[k]
+    if sip:
+        return _SipWCS(d, sa, sb)
     return wz.ZenithalWCS(d)
 
 
@@ -164,6 +222,50 @@ def _selfcheck_rotated():
     if not worst < 1e-10:
         raise RuntimeError('oracle fault: independent WCS disagrees with astropy.wcs on rotated grids by %g deg' % worst)
     _rot_checked = True
+
+
+_sip_checked = False
+
+
+def _selfcheck_sip():
+    """forward SIP oracle against astropy's all_pix2world, and the oracle's own inverse, once per process"""
+    global _sip_checked
+    if _sip_checked:
+        return
+    from astropy.wcs import WCS
+    import warnings
+    h = wz.make_header('TAN', (201.0, -70.0), (400.3, 380.7), (-2.0 / 3600, 2.0 / 3600), (800, 820))
+    sipc = {'A_2_0': 2.1e-6, 'A_1_1': 1.3e-6, 'A_0_2': -0.9e-6, 'A_3_0': 1.5e-9, 'B_2_0': -1.1e-6, 'B_1_1': 0.8e-6,
+            'B_0_2': 1.9e-6, 'B_1_2': -2.0e-9}
+    _add_sip(h, sipc, 3, False)
+    zz = _oracle_from_header(h)
+    p1, p2 = np.meshgrid(np.linspace(1, 820, 6), np.linspace(1, 800, 6))
+    with warnings.catch_warnings():
+        warnings.simplefilter('ignore')
+        sky = WCS(h, naxis=2).all_pix2world(np.column_stack([p1.ravel(), p2.ravel()]), 1)
+    ra, dec = zz.pix2sky(p1.ravel(), p2.ravel())
+    worst = float(np.max(sphere.sep(sky[:, 0], sky[:, 1], ra, dec)))
+    q1, q2 = zz.sky2pix(ra, dec)
+    back = float(np.max(np.hypot(q1 - p1.ravel(), q2 - p2.ravel())))
+    if not (worst < 1e-10 and back < 1e-9):
+        raise RuntimeError('oracle fault: SIP oracle vs astropy %g deg, own inverse %g px' % (worst, back))
+    _sip_checked = True
+
+
+def _add_sip(h, coeffs, order, inverse):
+    h['CTYPE1'] = _strip_sip(h['CTYPE1']) + '-SIP'
+    h['CTYPE2'] = _strip_sip(h['CTYPE2']) + '-SIP'
+    h['A_ORDER'] = int(order)
+    h['B_ORDER'] = int(order)
+    for k, v in coeffs.items():
+        h[k] = float(v)
+    if inverse:
+        # first-order inverse polynomials (what many pipelines write); never used by all_world2pix nor by the oracle
+        h['AP_ORDER'] = int(order)
+        h['BP_ORDER'] = int(order)
+        for k, v in coeffs.items():
+            h[k[0] + 'P' + k[1:]] = float(-v)
+    return h
 
 
 def _rotate_header(h, form, rot):
@@ -606,6 +708,38 @@ def _header_case(rng, proj, k, n, seed):
             'form': form, 'rot': rot, 'n': n, 'seed': [seed, proj, k]}
 
 
+def _sip_case(rng, k, n, seed):
+    """TAN-SIP, order 2 or 3, total distortion 0.4-0.8 px at the farthest corner of a >= 1000 px image at 1-2 arcsec/px,
+    with and without AP/BP.  The subject inverts the distortion with astropy's iterative all_world2pix, which stops when
+    a correction falls below 1e-4 px; the iteration contracts by (order x distortion / half-diagonal) <= 3.4e-3 per step,
+    so its result is within 3.4e-7 px (1.9e-10 deg at 2 arcsec/px) of the exact inverse - inside the 1e-6 px / 1e-9 deg of
+    the statement.  Smaller images or larger distortions would judge astropy's default tolerance, not Aegean."""
+    rows, cols = int(rng.integers(1000, 1700)), int(rng.integers(1000, 1700))
+    crpix = (cols / 2.0 + 0.5 + float(rng.uniform(-0.08, 0.08)) * cols, rows / 2.0 + 0.5 + float(rng.uniform(-0.08, 0.08)) * rows)
+    far = float(np.hypot(max(crpix[0], cols - crpix[0]), max(crpix[1], rows - crpix[1])))
+    order = 2 + k % 2
+    terms = [(p_, q_) for p_ in range(order + 1) for q_ in range(order + 1) if 2 <= p_ + q_ <= order]
+    d = float(rng.uniform(0.4, 0.8)) / np.sqrt(2.0)
+    sip = {}
+    for ax in 'AB':
+        wts = rng.uniform(0.3, 1.0, len(terms)) * rng.choice([-1.0, 1.0], len(terms))
+        wts *= d / np.abs(wts).sum()                       # |sum of terms| <= d at the farthest corner, per axis
+        for (p_, q_), wt in zip(terms, wts):
+            sip['%s_%d_%d' % (ax, p_, q_)] = float(wt / far ** (p_ + q_))
+    # rescale so that the largest distortion over the four corners is 0.4-0.8 px
+    def dist(u, v):
+        return np.hypot(sum(cf * u ** int(kk[2]) * v ** int(kk[4]) for kk, cf in sip.items() if kk[0] == 'A'),
+                        sum(cf * u ** int(kk[2]) * v ** int(kk[4]) for kk, cf in sip.items() if kk[0] == 'B'))
+    worst = max(dist(u, v) for u in (0.5 - crpix[0], cols + 0.5 - crpix[0]) for v in (0.5 - crpix[1], rows + 0.5 - crpix[1]))
+    fac = float(rng.uniform(0.4, 0.8)) / worst
+    sip = {kk: cf * fac for kk, cf in sip.items()}
+    scale = float(rng.uniform(1.0, 2.0)) / 3600.0
+    c = {'kind': 'header', 'proj': 'TAN', 'crval': list(CRVALS[(k * 3) % len(CRVALS)]), 'crpix': [float(crpix[0]), float(crpix[1])],
+         'cdelt': [-scale, scale], 'shape': [rows, cols], 'use_cd': bool(k % 3 == 2), 'form': 'sip', 'rot': 0.0,
+         'sip': sip, 'sip_order': order, 'sip_inverse': bool(k % 4 >= 2), 'n': n, 'seed': [seed, 'sip', k]}
+    return c
+
+
 def cases(seed, tier):
     per_proj = 16 if tier == 'quick' else 100
     n = 300 if tier == 'quick' else 600
@@ -615,7 +749,11 @@ def cases(seed, tier):
             rng = rng_for(seed, 'hdr', proj, k)
             out.append(_header_case(rng, proj, k, n, seed))
     q = tier == 'quick'
+    for k in range(8 if q else 40):
+        out.append(_sip_case(rng_for(seed, 'sip', k), k, 100 if q else 250, seed))
     for proj in wz.PROJECTIONS:
+        for k in range(2 if q else 8):
+            out.append(_psfmap_small_case(rng_for(seed, 'psfsmall', proj, k), proj, k, seed))
         for k in range(4 if q else 16):
             out.append(_psfmap_case(rng_for(seed, 'psfmap', proj, k), proj, k, seed, 40 if q else 80))
         for k in range(2 if q else 8):
@@ -637,6 +775,8 @@ def _build_header(case, beam):
                          tuple(case['shape']), beam=beam, use_cd=bool(case.get('use_cd')))
     if case.get('form') in ('pc_rot', 'crota', 'cd_rot'):
         hdr = _rotate_header(hdr, case['form'], case['rot'])
+    if case.get('sip'):
+        hdr = _add_sip(hdr, case['sip'], case['sip_order'], case.get('sip_inverse', False))
     return hdr
 
 
@@ -646,6 +786,7 @@ def run(case):
     sphere.selfcheck()
     wz.selfcheck()
     _selfcheck_rotated()
+    _selfcheck_sip()
     if case['kind'] == 'psfmap':
         return _run_psfmap(case, wcs_helpers)
     if case['kind'] == 'sequence':
@@ -661,6 +802,13 @@ def run(case):
         z = _oracle_from_header(hdr)
         if case.get('rot'):
             o.count('rotated_header_cases')
+        if case.get('sip'):
+            o.count('sip_header_cases')
+            o.count('sip_header_cases_with_inverse_polynomials', int(bool(case.get('sip_inverse'))))
+            cr = [(0.5, 0.5), (0.5, cols + 0.5), (rows + 0.5, 0.5), (rows + 0.5, cols + 0.5)]
+            zb = _oracle_from_header(_build_header(dict(case, sip=None), beam))
+            dmax = max(float(np.hypot(*np.subtract(zb.sky2pix(*z.pix2sky(c2, c1)), (c2, c1)))) for c1, c2 in cr)
+            o.worst('sip_corner_distortion_px', dmax)
         try:
             w = wcs_helpers.WCSHelper.from_header(hdr)
         except Exception as e:
@@ -974,14 +1122,41 @@ class _MapOracle:
         p1, p2 = self.z.sky2pix(ra, dec)
         if not _fin(p1, p2):
             return None
-        j, i = int(np.round(float(p1) - 1.0)), int(np.round(float(p2) - 1.0))
         n2, n1 = self.cube.shape[1:]
-        if not (1 <= i <= n2 - 2 and 1 <= j <= n1 - 2):
+        ri, rj = self._range(float(p2) - 1.0, n2), self._range(float(p1) - 1.0, n1)
+        if ri is None or rj is None:
             return None
-        nb = self.cube[:, i - 1:i + 2, j - 1:j + 2]
-        if not np.all(nb == self.cube[:, i:i + 1, j:j + 1]):
+        nb = self.cube[:, ri[0]:ri[1], rj[0]:rj[1]]
+        if not np.all(nb == nb[:, :1, :1]):
             return None
-        return tuple(float(v) for v in self.cube[:, i, j])
+        return tuple(float(v) for v in nb[:, 0, 0])
+
+    @staticmethod
+    def _range(f, n):
+        """0-based index range whose values must agree for the expectation to be independent of the look-up convention:
+        the 3 neighbours of an interior position; the 3 rows/columns next to an edge for a position >= 1.5 map pixels
+        beyond that edge (the map is clamped there: "clamping the x,y coords at the image boundaries"); None in the
+        1.5-pixel zones either side of an edge"""
+        r = int(np.round(f))
+        if 1 <= r <= n - 2 and 0.5 <= f <= n - 1.5:
+            return r - 1, r + 2
+        if f <= -0.5 - 1.5:
+            return 0, 3
+        if f >= n - 0.5 + 1.5:
+            return n - 3, n
+        return None
+
+    def side(self, ra, dec):
+        """which edge(s) of the map the position lies beyond by >= 1.5 map pixels"""
+        p1, p2 = self.z.sky2pix(ra, dec)
+        n2, n1 = self.cube.shape[1:]
+        out = []
+        for f, n, nm in ((float(p1) - 1.0, n1, 'axis1'), (float(p2) - 1.0, n2, 'axis2')):
+            if f <= -2.0:
+                out.append(nm + '_low')
+            elif f >= n + 1.0:
+                out.append(nm + '_high')
+        return out
 
 
 def _psfmap_case(rng, proj, k, seed, n):
@@ -1002,13 +1177,25 @@ def _psfmap_case(rng, proj, k, seed, n):
             'n': n, 'seed': [seed, 'psfmap', proj, k]}
 
 
+def _psfmap_small_case(rng, proj, k, seed):
+    """as _psfmap_case, but the psf map covers only the middle ~fifth of the image, off-centre, and varies along one of
+    its axes only (bands of 4 columns, or of 4 rows): beyond the map the look-up is clamped to the nearest edge"""
+    c = _psfmap_case(rng, proj, k + 1, seed, 0)
+    c['map'] = ['small_cols', 'small_rows'][k % 2]
+    c['map_offset'] = [float(rng.uniform(-0.08, 0.08)), float(rng.uniform(-0.08, 0.08))]
+    c['seed'] = [seed, 'psfsmall', proj, k]
+    return c
+
+
 def _write_psf_map(case, rng, z, tmp, scale):
     """3-plane cube (a, b, pa [deg]) on its own, coarser, north-up grid in another projection centred on the image centre"""
     from astropy.io import fits
     rows, cols = case['shape']
-    rac, decc = [float(v) for v in z.pix2sky(cols / 2.0 + 0.5, rows / 2.0 + 0.5)]
-    n1, n2 = 48, 40
-    extent = 1.5 * scale * np.hypot(rows, cols)                      # degrees covered by the map (> the image)
+    small = case['map'].startswith('small')
+    off = case.get('map_offset', [0.0, 0.0])
+    rac, decc = [float(v) for v in z.pix2sky(cols * (0.5 + off[0]) + 0.5, rows * (0.5 + off[1]) + 0.5)]
+    n1, n2 = (16, 12) if small else (48, 40)
+    extent = (0.15 if small else 1.5) * scale * np.hypot(rows, cols)   # degrees covered by the map (< or > the image)
     cd = extent / min(n1, n2)
     ph = wz.make_header(case['map_proj'], (rac, decc), (n1 / 2.0 + 0.5, n2 / 2.0 + 0.5), (-cd, cd), (n2, n1))
     ph['NAXIS'] = 3
@@ -1022,6 +1209,12 @@ def _write_psf_map(case, rng, z, tmp, scale):
     cube = np.zeros((3, n2, n1))
     if case['map'] == 'constant':
         cube[:, :, :] = np.array(one())[:, None, None]
+    elif case['map'] == 'small_cols':
+        for bj in range(0, n1, 4):
+            cube[:, :, bj:bj + 4] = np.array(one())[:, None, None]
+    elif case['map'] == 'small_rows':
+        for bi in range(0, n2, 4):
+            cube[:, bi:bi + 4, :] = np.array(one())[:, None, None]
     else:
         blk = 8
         for bi in range(0, n2, blk):
@@ -1058,6 +1251,20 @@ def _run_psfmap(case, wcs_helpers):
         probes = [(rows / 2.0 + 0.5, cols / 2.0 + 0.5), (rows * 0.25, cols * 0.75), (rows * 0.8, cols * 0.1)]
         while len(probes) < case['n']:
             probes.append((float(rng.uniform(0.5, rows + 0.5)), float(rng.uniform(0.5, cols + 0.5))))
+        if case['map'].startswith('small'):
+            # positions 1.5-4 map pixels beyond each of the four edges of the map (other coordinate inside it), and inside
+            n2m, n1m = mp.cube.shape[1:]
+            mpix = []
+            for _ in range(8):
+                d = float(rng.uniform(1.5, 4.0))
+                mpix += [(0.5 - d, float(rng.uniform(2, n2m - 1))), (n1m + 0.5 + d, float(rng.uniform(2, n2m - 1))),
+                         (float(rng.uniform(2, n1m - 1)), 0.5 - d), (float(rng.uniform(2, n1m - 1)), n2m + 0.5 + d)]
+            mpix += [(0.5 - 2.5, 0.5 - 3.0), (n1m + 3.0, n2m + 3.5), (0.5 - 2.0, n2m + 2.5), (n1m + 2.7, 0.5 - 1.8)]      # corners
+            mpix += [(float(rng.uniform(2, n1m - 1)), float(rng.uniform(2, n2m - 1))) for _ in range(8)]
+            for (m1, m2) in mpix:
+                rr, dd = mp.z.pix2sky(m1, m2)
+                q1, q2 = z.sky2pix(float(rr), float(dd))
+                probes.append((float(q2), float(q1)))
         seen = []
         for (x, y) in probes:
             ra, dec = [float(v) for v in z.pix2sky(y, x)]
@@ -1068,6 +1275,9 @@ def _run_psfmap(case, wcs_helpers):
             if beam is None:
                 o.count('psfmap_lookup_undetermined')
                 continue
+            for sd in mp.side(ra, dec):
+                o.count('psfmap_beyond_edge_probes_judged')
+                o.see('psfmap_beyond_edge_sides', sd)
             wt = dict(wit0, pixel_xy=[x, y], sky=[ra, dec], map_beam=list(beam))
             exp = _expected_pixbeam(z, ra, dec, *beam)
             if abs(x - y) > 2.0:
